@@ -8,6 +8,7 @@ area = "config"
 driver = "drv_config"
 cxx = False
 fixed_lines = 1
+link_extra = ("-Wl,--wrap=malloc",)   # 'g failsize n': allocation failure by size inside an assignment
 per_process = 25   # the global tree is process-global; 'g begin'/'g end' empty it, a fault costs its batch only
 rule = ("scripts = 'g begin', ops, 'g end' (both empty the process-global tree), 25 scripts per driver process; stream 1 (exhaustive small scope): every "
         "history of length <=3 (quick) / <=4 (thorough) of set/del over the 6 paths a, a.b, a.b.c, a.c, b, a..b "
@@ -39,7 +40,8 @@ rule = ("scripts = 'g begin', ops, 'g end' (both empty the process-global tree),
 assumptions = [
     "path texts and values are C strings (no zero byte); the assign character is 0 for set/get/del as in mpt_config_set/get",
     "the node list operations used by the configuration tree behave as C14 shows (first match, append, unlink+destroy)",
-    "malloc never fails in the harness runs",
+    "malloc fails only where a script injects it ('g failsize n' before an assignment whose only missing element is the "
+    "last one: the separately allocated name of that element fails)",
     "which elements exist (with or without value) is part of the specification for the node trees: the non-empty "
     "prefixes of every accepted assignment since the last removal that covered them, and nothing else (a refused "
     "assignment changes nothing); for the C++ item arrays an element emptied by remove may be reported present or absent",
@@ -383,13 +385,35 @@ def _stream8(tier, r):
     return out
 
 
+
+def _failsize_scripts(hx):
+    """the name allocation of the last path element fails (lengths whose name does not fit the node made for it:
+    20..23, 84..87, 212..215 and longer): the assignment is refused, nothing changes, everything is released once"""
+    out = []
+    k = 0
+    for ln in (20, 21, 22, 23, 84, 87, 212, 215, 216, 230, 300):
+        last = ("n%d_" % ln + "abcdefghijklmnopqrstuvwxyz" * 12)[:ln]
+        for tr, pre, path in (("-", [], last), ("r", [], last),
+                              ("-", ["g set - %s 2e %s" % (hx("a.b"), hx("1"))], "a.b." + last),
+                              ("-", ["g set - %s 2e %s" % (hx("a.b"), hx("1"))], "a." + last),
+                              ("r", ["g set r %s 2e %s" % (hx("a"), hx("1"))], "a." + last),
+                              ("0", ["g set - %s 2e %s" % (hx("a.b"), hx("1"))], last),
+                              ("0", ["g set - %s 2e %s" % (hx("a"), hx("1"))], last)):
+            lines = ["g begin", "g view 61 2e"] + pre + ["g failsize %d" % (ln + 1), "g set %s %s 2e %s" % (tr, hx(path), hx("v")),
+                     "g has %s %s 2e" % (tr, hx(path)), "g set %s %s 2e %s" % (tr, hx(path), hx("w")),
+                     "g get %s %s 2e" % (tr, hx(path)), "g end"]
+            out.append(("failsize:%d" % k, lines))
+            k += 1
+    return out
+
+
 def scripts(tier, seed, scale=1):
     r2 = gen.rng(id, tier, seed, "mixed")
     r4 = gen.rng(id, tier, seed, "random")
     r5 = gen.rng(id, tier, seed, "binary")
     r6 = gen.rng(id, tier, seed, "refused")
     return (_stream1(tier) + _stream2(tier, r2) + _stream3(tier) + _stream4(tier, r4, scale) + _stream5(tier, r5)
-            + _stream6(tier, r6) + _stream7(tier) + _stream8(tier, gen.rng(id, tier, seed, "emptypath")))
+            + _stream6(tier, r6) + _stream7(tier) + _stream8(tier, gen.rng(id, tier, seed, "emptypath")) + _failsize_scripts(hx))
 
 
 def nontrivial(script, c_lines):
